@@ -67,6 +67,10 @@ CHECKS = {
   text="For each of 44 hand-scripted and 56 (quick) / 1500 (thorough) seeded histories, every file-system-mutating system call inside the one interrupted operation (Push, Tag, Untag, Delete with and without cascade, SaveIndex, GC) is a crash point: a ptrace supervisor kills the process at the entry of the k-th such call for every k, each on a fresh copy of the prepared directory. Every crashed directory is reopened by a fresh untraced process and checked in full (opens, blobs hash to their names, every index entry names an existing blob, tag mapping equals the before or the after mapping obtained from uninterrupted runs, effects of returned operations present).",
   note="Process crash, not power loss: completed writes are visible after the kill. One interrupted operation per history, issued from one goroutine. Exhaustive per history (every enumeration reaches a completed run). Trusted base: tools/crashat.c (counted syscall set; close not counted), Linux ptrace semantics, the layout validator.",
   tech="runtime monitoring: ptrace crash-point injection at every FS-mutating syscall + fresh-process oracle on the crashed directory"),
+ "C16": dict(cat="exploration",
+  text="Seeded random histories and hook-synchronised concurrent mixes of one auth.Client against 2-4 modelled registry hosts and token services (Basic, Bearer via distribution GET and OAuth2 POST flows, realms on own or foreign hosts, scheme changes, scope hints, challenge scope strings in any order/duplication) for every cache flavour. Every request at the innermost transport is scanned for every secret in the world and judged for host, scheme and canonical scope set (independent canonicaliser); every returned response is matched with the registry model's last answer (non-401, at most 3 sends, at most 1 token fetch). Coalescing is made deterministic by holding the token endpoint or credential helper until all concurrent requests have entered Cache.Set, then owners or waiters have their contexts ended. The concurrent workload also runs under the race detector.",
+  note="The in-process transport emulates net/http's context-error behaviour. Scope-set equality is demanded for NewCache and no cache only (the single-context cache is host-keyed by documentation). Valid credentials means the client's secrets are the ones the model accepts. Interleavings are sampled; late-arrival coalescing is counted, never demanded.",
+  tech="runtime monitoring: secret/token monitor at the innermost RoundTripper plus response oracle, hook-barrier concurrency, race detector"),
 }
 
 PENDING_REASON = "check under construction in this session (not yet claimed); the technique applies"
